@@ -362,6 +362,10 @@ func (w *World) RandomTx(r *verifutil.Rng, hostilePct int) *Gen {
 			}
 		}
 		dest := w.anyAddr(r)
+		selfDest := r.Intn(5) == 0
+		if selfDest {
+			dest = c.Addr // the contract is asked to pay itself
+		}
 		var att *attachments.CallContractAttachment
 		switch r.Intn(4) {
 		case 0:
@@ -374,6 +378,9 @@ func (w *World) RandomTx(r *verifutil.Rng, hostilePct int) *Gen {
 			att = attachments.CreateCallContractAttachment("push", dest.Bytes(), Dna(1).Bytes())
 		}
 		pl, _ := att.ToBytes()
+		if selfDest {
+			return mk("Call/dest=the-contract-itself", w.TxGas(from, types.CallContractTx, &c.Addr, Dna(int64(r.Range(0, 5))), pl, 3000))
+		}
 		return mk("Call", w.TxGas(from, types.CallContractTx, &c.Addr, Dna(int64(r.Range(0, 5))), pl, 3000))
 	case 17: // terminate
 		c := w.knownContract(r)
@@ -874,6 +881,68 @@ func (w *World) ForgedSignatureTxs(r *verifutil.Rng) []*Gen {
 			}
 			out = append(out, &Gen{Tx: tx, Kind: "forged:unrecoverable-signature-spends-the-zero-wallet"})
 		}
+	}
+	return out
+}
+
+// DrainThenContractSeqs: [a transfer that leaves the sender just the plain fee of its next tx, a
+// contract tx (deploy / call of a known contract) whose max fee is far larger than what is left].
+// Each passes pool admission on its own (the pool validates against the head state); in the block
+// the second one is not covered any more.
+func (w *World) DrainThenContractSeqs(r *verifutil.Rng, max int) [][]*types.Transaction {
+	v := w.View()
+	st := v.AppState.State
+	ns := v.AppState.ValidatorsCache.NetworkSize()
+	fpg := st.FeePerGas()
+	ep := st.Epoch()
+	var out [][]*types.Transaction
+	for tries := 0; tries < max*3 && len(out) < max; tries++ {
+		from := w.pickActor(r, func(a *Actor, _ state.Identity) bool {
+			return a != w.God && !isNode(w, a) && st.GetBalance(a.Addr).Cmp(Dna(40)) > 0 && st.GetCodeHash(a.Addr) == nil
+		})
+		if from == nil {
+			break
+		}
+		bal := st.GetBalance(from.Addr)
+		nonce := w.NextNonce(from)
+		// tx2 first (its plain fee decides what tx1 leaves behind)
+		var t2 types.TxType
+		var to2 *common.Address
+		var pl2 []byte
+		if c := w.knownContract(r); c != nil && r.Bool() {
+			t2 = types.CallContractTx
+			a := c.Addr
+			to2 = &a
+			dest := w.anyAddr(r)
+			pl2, _ = attachments.CreateCallContractAttachment("transfer", dest.Bytes(), Dna(1).Bytes()).ToBytes()
+		} else if r.Bool() {
+			t2 = types.DeployContractTx
+			pl2, _ = attachments.CreateDeployContractAttachment(embedded.MultisigContract, nil, nil, []byte{2}, []byte{1}).ToBytes()
+		} else {
+			// a WASM deployment: the flat deployment charge alone is 30000 gas
+			t2 = types.DeployContractTx
+			pl2, _ = attachments.CreateDeployContractAttachment(common.Hash{}, c15WasmCode[kSpender], r.Bytes(4)).ToBytes()
+		}
+		probe2 := &types.Transaction{AccountNonce: nonce + 1, Epoch: ep, Type: t2, To: to2, Payload: pl2, MaxFee: Dna(1)}
+		fee2 := fee.CalculateFee(ns, fpg, probe2)
+		maxFee2 := new(big.Int).Add(new(big.Int).Mul(fee2, big.NewInt(3)), new(big.Int).Mul(fpg, big.NewInt(int64(r.Range(40000, 90000)))))
+		if maxFee2.Cmp(new(big.Int).Div(bal, big.NewInt(2))) > 0 {
+			continue
+		}
+		dst := w.anyAddr(r)
+		probe1 := &types.Transaction{AccountNonce: nonce, Epoch: ep, Type: types.SendTx, To: &dst, Amount: bal, MaxFee: Dna(1)}
+		fee1 := fee.CalculateFee(ns, fpg, probe1)
+		maxFee1 := new(big.Int).Div(new(big.Int).Mul(fee1, big.NewInt(105)), big.NewInt(100))
+		slack := new(big.Int).Mul(fpg, big.NewInt(int64(r.Range(1, 400))))
+		amount := new(big.Int).Sub(bal, maxFee1)
+		amount.Sub(amount, fee2)
+		amount.Sub(amount, slack)
+		if amount.Sign() <= 0 {
+			continue
+		}
+		tx1 := SignedTx(from, types.SendTx, &dst, amount, maxFee1, nil, nonce, ep, nil)
+		tx2 := SignedTx(from, t2, to2, nil, maxFee2, nil, nonce+1, ep, pl2)
+		out = append(out, []*types.Transaction{tx1, tx2})
 	}
 	return out
 }
